@@ -2,7 +2,9 @@ package main
 
 import (
 	"fmt"
+	"go/constant"
 	"go/token"
+	"go/types"
 	"regexp"
 
 	"golang.org/x/tools/go/ssa"
@@ -147,6 +149,91 @@ func init() {
 			}
 			c.storeReachUnder(p, "C04.sample", "a candidate equal to q is rejected", f, cand(8380417), "store of a coefficient", isCoeff, false)
 			c.storeReachUnder(p, "C04.sample", "a candidate equal to q-1 is kept", f, cand(8380416), "store of a coefficient", isCoeff, true)
+			// MakeHint (FIPS 204 Alg. 39) at its boundaries: no hint for |z0| <= γ2 and for z0 = -γ2 with r1 = 0,
+			// a hint for z0 = γ2+1, for z0 = -γ2 with r1 != 0 and for z0 = -γ2-1 (z0 given mod q)
+			{
+				g2 := int64(261888) // (q-1)/32
+				if pk == "sign/dilithium/mode2" || pk == "sign/mldsa/mldsa44" {
+					g2 = 95232 // (q-1)/88
+				}
+				const q = 8380417
+				mh := p.Func(pk+"/internal", "", "makeHint")
+				one := successSpec{"result 0 == 1", func(r []lat) bool {
+					return len(r) > 0 && (r[0].k == kTop || (r[0].k == kConst && r[0].c.Kind() == constant.Int && r[0].c.ExactString() == "1"))
+				}}
+				for _, tc := range []struct {
+					z0, r1 int64
+					hint   bool
+				}{{g2, 5, false}, {g2 + 1, 5, true}, {q - g2, 0, false}, {q - g2, 1, true}, {q - g2 - 1, 0, true}, {q - g2 + 1, 3, false}, {0, 0, false}} {
+					c.evalAcceptRuleSpec(p, "C04.sample", fmt.Sprintf("makeHint(z0=%d, r1=%d) = %v", tc.z0, tc.r1, map[bool]int{false: 0, true: 1}[tc.hint]), mh,
+						map[string]lat{"z0": latInt(tc.z0), "r1": latInt(tc.r1)}, nil, nil, tc.hint, one)
+				}
+			}
+			// ExpandS: a 4-bit candidate is kept iff it is at most 14 (η = 2, then reduced mod 5) or at most 2η (η = 4)
+			{
+				eta := map[string]int64{"sign/dilithium/mode2": 2, "sign/dilithium/mode3": 4, "sign/dilithium/mode5": 2, "sign/mldsa/mldsa44": 2, "sign/mldsa/mldsa65": 4, "sign/mldsa/mldsa87": 2}[pk]
+				bound := int64(14)
+				if eta == 4 {
+					bound = 8
+				}
+				fe := p.Func(pk+"/internal", "", "PolyDeriveUniformLeqEta")
+				outerE := fe
+				if fe != nil && len(fe.AnonFuncs) == 1 {
+					fe = fe.AnonFuncs[0]
+				}
+				nib := func(v int64) []ValAssume {
+					return []ValAssume{{Name: "candidate (4 bits)", Val: latInt(v), Match: func(x ssa.Value, in *ssa.Function) bool {
+						b, ok := x.(*ssa.BinOp)
+						if !ok || in != fe {
+							return false
+						}
+						k, ok := b.Y.(*ssa.Const)
+						if !ok || k.Value == nil {
+							return false
+						}
+						return (b.Op == token.AND && k.Value.ExactString() == "15") || (b.Op == token.SHR && k.Value.ExactString() == "4")
+					}}}
+				}
+				isCoeffE := func(st *ssa.Store) bool {
+					ia, ok := st.Addr.(*ssa.IndexAddr)
+					if !ok || outerE == nil || len(outerE.Params) == 0 {
+						return false
+					}
+					base, _ := memRoot(ia.X)
+					if fv, ok := base.(*ssa.FreeVar); ok {
+						return fv.Name() == outerE.Params[0].Name()
+					}
+					return base == ssa.Value(outerE.Params[0])
+				}
+				c.storeReachUnder(p, "C04.sample", fmt.Sprintf("ExpandS (η=%d): a candidate equal to %d is rejected", eta, bound+1), fe, nib(bound+1), "store of a coefficient", isCoeffE, false)
+				c.storeReachUnder(p, "C04.sample", fmt.Sprintf("ExpandS (η=%d): a candidate equal to %d is kept", eta, bound), fe, nib(bound), "store of a coefficient", isCoeffE, true)
+			}
+			// the four-way sampler: the eight candidates of a group are read back from a local array
+			fx := p.Func(pk+"/internal", "", "PolyDeriveUniformX4")
+			candX := func(v int64) []ValAssume {
+				return []ValAssume{{Name: "candidate t[k]", Val: latInt(v), Match: func(x ssa.Value, in *ssa.Function) bool {
+					ld, ok := x.(*ssa.UnOp)
+					if !ok || in != fx || ld.Op != token.MUL {
+						return false
+					}
+					ia, ok := ld.X.(*ssa.IndexAddr)
+					if !ok {
+						return false
+					}
+					a, ok := ia.X.(*ssa.Alloc)
+					return ok && a.Type().String() == "*[8]uint32"
+				}}}
+			}
+			isCoeffX := func(st *ssa.Store) bool {
+				ia, ok := st.Addr.(*ssa.IndexAddr)
+				if !ok || fx == nil || len(fx.Params) == 0 {
+					return false
+				}
+				// ps[j][idx[j]]: an element of one of the four polynomials handed in
+				return ia.X.Type().String() == fx.Params[0].Type().(*types.Array).Elem().String()
+			}
+			c.storeReachUnder(p, "C04.sample", "four-way sampler: a candidate equal to q is rejected", fx, candX(8380417), "store of a coefficient", isCoeffX, false)
+			c.storeReachUnder(p, "C04.sample", "four-way sampler: a candidate equal to q-1 is kept", fx, candX(8380416), "store of a coefficient", isCoeffX, true)
 		}
 	}
 }
